@@ -648,12 +648,14 @@ impl Printable for ObjBody {
 					p!(out, { mem.value });
 					format_comments(&mem.inline_trivia, CommentLocation::ItemInline, out);
 				}
+				// The comments after the last spec are on lines of their own
+				p!(out, nl);
 				if end_comments.should_start_with_newline {
 					p!(out, nl);
 				}
 				format_comments(&end_comments.trivia, CommentLocation::EndOfItems, out);
 
-				p!(out, nl <i str("}"));
+				p!(out, <i str("}"));
 			}
 			Self::ObjBodyMemberList(l) => {
 				fn gen_members(
